@@ -69,6 +69,7 @@ def generate_changing_data(
 
     p = len(means[0])
     x = multivariate_normal.rvs(np.zeros(p), np.eye(p), n, random_state)
+    x = x.reshape(n, p)  # `rvs` squeezes the output when n == 1 or p == 1.
     changepoints = [0] + changepoints + [n]
     for prev_cpt, next_cpt, mean, variance in zip(
         changepoints[:-1], changepoints[1:], means, variances
@@ -137,6 +138,7 @@ def generate_anomalous_data(
 
     p = len(means[0])
     x = multivariate_normal.rvs(np.zeros(p), np.eye(p), n, random_state)
+    x = x.reshape(n, p)  # `rvs` squeezes the output when n == 1 or p == 1.
     for anomaly, mean, variance in zip(anomalies, means, variances):
         start, end = anomaly
         x[start:end] = mean + np.sqrt(variance) * x[start:end]
